@@ -298,6 +298,42 @@ def np_ufunc_outer(interp, name, args, kw, st, node):
     return A.binop(interp, op, col, row, st, node)
 
 
+@reg("numpy.split", "numpy.array_split")
+def np_split(interp, name, args, kw, st, node):
+    """np.split(A, cuts) with cuts = cumsum([0] + L)[1:-1] or cumsum(L)[:-1] and sum(L) == len(A):
+    the consecutive row blocks of lengths L"""
+    from . import loops as _loops
+
+    b = bind(["ary", "indices_or_sections", "axis"], args, kw)
+    x, cuts = arrv(b["ary"]), b["indices_or_sections"]
+    ax = b.get("axis")
+    labels = _L(*args, *kw.values())
+    L = None
+    if cuts is not None and isinstance(cuts.term, Term) and cuts.term.op == "getitem" and (ax is None or ax.kind == "none" or (ax.has_const and ax.const == 0)):
+        base_t, sl = cuts.term.args
+        none = const(None)
+        if sl == T("slice", const(1), const(-1), none):
+            L = _loops._cum_lengths(base_t)
+        elif sl == T("slice", none, const(-1), none) and base_t.op == "cumsum" and len(base_t.args) == 1:
+            L = base_t.args[0]
+    sh = shape(x)
+    if L is not None and sh is not None and len(sh) >= 1:
+        # the lengths must add up to the number of rows: rows of vstack(Xs) split by [len(X) for X in Xs]
+        tot = sh[0]
+        ok = False
+        if len(tot.lin) == 1 and tot.c == 0 and isinstance(tot.lin[0][0], tuple) and tot.lin[0][0][0] == "t" and tot.lin[0][0][1].op == "totalrows":
+            src = tot.lin[0][0][1].args[0]
+            if isinstance(L, Term) and L.op == "comp" and len(L.args) == 3 and L.args[1] == src:
+                e = L.args[2]
+                want = T("getitem", src, T("lv", L.args[0]))
+                if isinstance(e, Term) and e.op == "dim" and len(e.args[0].lin) == 1 and e.args[0].c == 0 and e.args[0].lin[0][0] == ("t", T("rowsof", want)):
+                    ok = True
+        if ok:
+            return V("list", T("blocks", x.term, L), items=None, labels=labels, orig=frozenset([FRESH]), extra=("comp", None, None), loc=fresh_id())
+    interp.event("opaque-call", node, st, fn=name)
+    return V("list", callterm(name, args, kw), labels=labels, orig=frozenset([FRESH]), loc=fresh_id())
+
+
 @reg("numpy.linalg.multi_dot")
 def np_multidot(interp, name, args, kw, st, node):
     x = args[0]
@@ -364,11 +400,6 @@ def _reduction(opname, dtype=None, index=False):
                 parts.append(("n", A.dim_term(ext)))
         term = T(opname, *parts)
         is_sq = x.term.op == "pow" and len(x.term.args) == 2 and x.term.args[1] == const(2)
-        if opname == "sum" and at is None and x.term.op == "mul" and len(x.term.args) == 2 and sh is not None and len(sh) == 2 and len(parts) == 1:
-            # sum_ij P_ij Q_ij = trace(P Q^T)
-            pv, qv = interp.vtab.get(x.term.args[0]), interp.vtab.get(x.term.args[1])
-            if pv is not None and qv is not None and shape(pv) == tuple(sh) and shape(qv) == tuple(sh):
-                term = T("trace", T("matmul", pv.term, T("T", qv.term)))
         if opname == "sum" and ((x.term.op == "mul" and len(x.term.args) == 2) or is_sq) and sh is not None and len(sh) == 2 and len(parts) == 2 and axis_of(b.get("axis"), rank) in (0, 1):
             # sum_j P_ij Q_ij = diag(P Q^T)_i   (and along the other axis diag(P^T Q))
             pv, qv = interp.vtab.get(x.term.args[0]), interp.vtab.get(x.term.args[0 if is_sq else 1])
